@@ -6,6 +6,17 @@ DIFF_NOTE = ("Trusted: Lean 4.33 kernel (axioms propext, Classical.choice, Quot.
              "than verified: the Go analyser itself (hand-written Lean transcription, one function per Go function, explicit panics, fuel), "
              "float formatting of DiffInfo, x- extensions (oracle sweep only).")
 CLAIMED = {
+ "C02": {
+  "technique": "Lean 4 proof (reference validity semantics; theorem that the documented relaxation can only matter on explicit zero values) + compiled generated models vs the semantics, calibrated against go-openapi/validate",
+  "text": ("Proof, partial: `valid` is the draft-4/Swagger-2.0 subset semantics, `validSkip` the same with the documented relaxation applied wherever it may apply; "
+           "skip_agrees_without_zero proves for EVERY schema, definitions and instance that the two coincide unless some object member is an explicit zero value - so outside those "
+           "instances the generated Validate has exactly one admissible verdict; the gap is shown real in both directions; required_null_is_missing fixes the null reading. "
+           "Tie: definition sets are generated, their models compiled, and valid-by-construction instances plus single-point mutations are decoded and validated; the verdict must equal "
+           "`valid` wherever valid = validSkip; `valid` itself is compared with go-openapi/validate on every null-free instance. Not proved: a model of the generated Validate code "
+           "(pointer / omitempty plan) refining these semantics - the design's gen_refines is future work."),
+  "note": ("Trusted: Lean kernel + audited axioms; genlab models lab (generated models + glue main); go-openapi/validate as calibration oracle. Modelled rather than verified: "
+           "the generated validators (exercised, not modelled), encoding/json decoding. Fragment: no tuples, polymorphism, patterns, formats, untyped objects."),
+ },
  "C03": {
   "technique": "Lean 4 proof (agreement of the model of the generated binder with a reference binder for all specs and raw values of the fragment; soundness; counterexample theorems) + compiled generated servers",
   "text": ("Proof on the simple-schema query fragment: `bindGen` transcribes what server/parameter.gotmpl emits (presence test, last value wins, empty-value rule, swag.SplitByFormat, item loop, "
@@ -16,6 +27,15 @@ CLAIMED = {
   "note": ("Trusted: Lean kernel + audited axioms; genlab server lab; encoding/json projection of the parameter struct. Modelled rather than verified: net/http query parsing, the runtime router, "
            "swag.SplitByFormat/ConvertInt/ConvertBool (dependencies, transcribed). Outside the fragment (not claimed by the theorems, not yet sent): header, path, formData and body parameters, "
            "number and strfmt formats, patterns, defaults, multi and nested arrays."),
+ },
+ "C05": {
+  "technique": "Lean 4 proof (properties of the tolerated-difference relation for all schemas and documents) + compiled generated models round-tripped on valid instances",
+  "text": ("Proof, partial: `tolerated` is the decidable relation the property allows between a valid document and its decode/encode image; for ALL schemas and documents: "
+           "required_kept, nothing_added, scalars_unchanged, and the documented differences are tolerated while a changed value, a lost required property or an invented member are not "
+           "(examples, by kernel evaluation). Tie: compiled generated models are run on valid instances; json.Marshal(json.Unmarshal(doc)) must be tolerated and a second pass must "
+           "reproduce the first output exactly (idempotence is checked on the real code). A model of the generated serializers is not built."),
+  "note": ("Trusted: Lean kernel + audited axioms; genlab models lab; encoding/json. Modelled rather than verified: the generated (un)marshallers (exercised, not modelled). "
+           "Fragment as C02; polymorphic base types and tuples are not generated."),
  },
  "C06": {
   "technique": "Lean 4 proof (decision-logic theorems over the authorisation model for all requirement lists and credential assignments) + compiled generated servers with stub authenticators over all credential assignments",
